@@ -362,12 +362,16 @@ func (procHarness) Gen(seed uint64, prop, tier string) *simkit.Program {
 	g := &genState{r: r, p: p, tier: tier}
 	g.own = r.Intn(nKeys)
 	p.Cfg["own"] = int64(g.own)
+	// the governance chain is configuration: 255 on devnet, 0 in the mainnet and testnet configs
+	gc := int64([]int{255, 255, 0}[r.Intn(3)])
+	setGovChain(gc)
 	p.Cfg["reqcap"] = int64([]int{50, 50, 50, 1, 2, 0}[r.Intn(6)])
 	if (prop == "C01" || prop == "C02") && r.P(0.12) {
-		p.Cfg = map[string]int64{}
+		p.Cfg = map[string]int64{"govchain": gc}
 		genMesh(g)
 		return p
 	}
+	p.Cfg["govchain"] = gc
 	if r.P(0.25) {
 		p.Cfg["loop"] = 1
 	}
